@@ -68,6 +68,16 @@ type FuncV struct {
 	Term  *Term // opaque identity
 }
 
+// FuncChoice is a function value that depends on the path taken: Alts[i].F under Alts[i].Cond.
+type FuncChoice struct {
+	Alts []FuncAlt
+}
+
+type FuncAlt struct {
+	Cond *Term
+	F    *FuncV
+}
+
 // ---------- type helpers ----------
 
 func under(t types.Type) types.Type { return t.Underlying() }
@@ -565,4 +575,22 @@ func chanKey(t types.Type) string {
 		return canonType(c.Elem())
 	}
 	return canonType(t)
+}
+
+// hasRefs reports whether values of type t contain pointers, slices, maps, channels, interfaces or functions.
+func hasRefs(t types.Type) bool {
+	switch u := under(t).(type) {
+	case *types.Basic:
+		return false
+	case *types.Struct:
+		for i := 0; i < u.NumFields(); i++ {
+			if hasRefs(u.Field(i).Type()) {
+				return true
+			}
+		}
+		return false
+	case *types.Array:
+		return hasRefs(u.Elem())
+	}
+	return true
 }
